@@ -27,6 +27,16 @@ def evalD : List String → String
   | ["quoInt", a, k] => g (pInt k != 0) (r (Dec.quoInt (pDec a) (pInt k)))
   | ["power", a, p] => r (Dec.power (pDec a) (pInt p).toNat)
   | ["approxSqrt", a] => r (Dec.approxSqrt (pDec a))
+  | ["add", a, b] => r (Dec.add (pDec a) (pDec b))
+  | ["sub", a, b] => r (Dec.sub (pDec a) (pDec b))
+  | ["mulInt", a, k] => r (Dec.mulInt (pDec a) (pInt k))
+  | ["truncateInt64", a] => toString (Dec.truncateInt (pDec a))
+  | ["roundInt64", a] => toString (Dec.roundInt (pDec a))
+  | ["int64", a] => toString (pInt a)
+  | ["uint64", a] => toString (pInt a)
+  | ["iadd", a, b] => toString (pInt a + pInt b)
+  | ["isub", a, b] => toString (pInt a - pInt b)
+  | ["imul", a, b] => toString (pInt a * pInt b)
   | _ => "bad-op"
 
 def evalK : List String → String
@@ -59,6 +69,62 @@ def evalK : List String → String
   | ["qfb_NextTickAfterCrossing", lim, fee, t] => toString (qfb_NextTickAfterCrossing (pDec lim) (pDec fee) (pInt t))
   | ["bfq_GetLiquidityDeltaSign", lim, fee, d] => r (bfq_GetLiquidityDeltaSign (pDec lim) (pDec fee) (pDec d))
   | ["qfb_GetLiquidityDeltaSign", lim, fee, d] => r (qfb_GetLiquidityDeltaSign (pDec lim) (pDec fee) (pDec d))
+  | ["SquareRoundUp", a] => r (SquareRoundUp (pDec a))
+  | ["SquareTruncate", a] => r (SquareTruncate (pDec a))
   | _ => "bad-op"
+
+/-! Range assertions (`R <op line>`): `1` = every range assertion of cosmossdk.io/math on the path holds (`f_rng`),
+`0` = one of them fires (Go panics with "Int overflow" / "integer overflow" / "… out of bound"), `-` = the op has no range guard
+(hand-written tick math, rendering). -/
+def b (x : Bool) : String := if x then "1" else "0"
+
+def evalR : List String → String
+  | ["D", "mul", a, c] => b (Dec.mul (pDec a) (pDec c)).inRng
+  | ["D", "mulTruncate", a, c] => b (Dec.mulTruncate (pDec a) (pDec c)).inRng
+  | ["D", "mulRoundUp", a, c] => b (Dec.mulRoundUp (pDec a) (pDec c)).inRng
+  | ["D", "quo", a, c] => b (Dec.quo (pDec a) (pDec c)).inRng
+  | ["D", "quoTruncate", a, c] => b (Dec.quoTruncate (pDec a) (pDec c)).inRng
+  | ["D", "quoRoundUp", a, c] => b (Dec.quoRoundUp (pDec a) (pDec c)).inRng
+  | ["D", "add", a, c] => b (Dec.add (pDec a) (pDec c)).inRng
+  | ["D", "sub", a, c] => b (Dec.sub (pDec a) (pDec c)).inRng
+  | ["D", "mulInt", a, k] => b (Dec.mulInt (pDec a) (pInt k)).inRng
+  | ["D", "ceil", a] => b (Dec.ceil (pDec a)).inRng
+  | ["D", "truncateInt", a] => b (Int256.inRange (Dec.truncateInt (pDec a)))
+  | ["D", "roundInt", a] => b (Int256.inRange (Dec.roundInt (pDec a)))
+  | ["D", "truncateInt64", a] => b (I64.inRange (Dec.truncateInt (pDec a)))
+  | ["D", "roundInt64", a] => b (I64.inRange (Dec.roundInt (pDec a)))
+  | ["D", "int64", a] => b (I64.inRange (pInt a))
+  | ["D", "uint64", a] => b (U64.inRange (pInt a))
+  | ["D", "iadd", a, c] => b (Int256.inRange (pInt a + pInt c))
+  | ["D", "isub", a, c] => b (Int256.inRange (pInt a - pInt c))
+  | ["D", "imul", a, c] => b (Int256.inRange (pInt a * pInt c))
+  | ["D", "quoInt", _, _] => "1"
+  | ["D", "string", _] => "1"
+  | ["D", "power", a, p] => b (Dec.powerRng (pDec a) (pInt p))
+  | ["K", "LiquidityBase", a, pa, pb] => b (LiquidityBase_rng (pInt a) (pDec pa) (pDec pb))
+  | ["K", "LiquidityQuote", a, pa, pb] => b (LiquidityQuote_rng (pInt a) (pDec pa) (pDec pb))
+  | ["K", "CalcAmountBaseDelta", l, pa, pb, u] => b (CalcAmountBaseDelta_rng (pDec l) (pDec pa) (pDec pb) (pBool u))
+  | ["K", "CalcAmountQuoteDelta", l, pa, pb, u] => b (CalcAmountQuoteDelta_rng (pDec l) (pDec pa) (pDec pb) (pBool u))
+  | ["K", "NextBaseIn", c, l, a] => b (GetNextSqrtPriceFromAmountBaseInRoundingUp_rng (pDec c) (pDec l) (pDec a))
+  | ["K", "NextBaseOut", c, l, a] => b (GetNextSqrtPriceFromAmountBaseOutRoundingUp_rng (pDec c) (pDec l) (pDec a))
+  | ["K", "NextQuoteIn", c, l, a] => b (GetNextSqrtPriceFromAmountQuoteInRoundingDown_rng (pDec c) (pDec l) (pDec a))
+  | ["K", "NextQuoteOut", c, l, a] => b (GetNextSqrtPriceFromAmountQuoteOutRoundingDown_rng (pDec c) (pDec l) (pDec a))
+  | ["K", "GetLiquidityFromAmounts", c, pa, pb, ab, aq] => b (GetLiquidityFromAmounts_rng (pDec c) (pDec pa) (pDec pb) (pInt ab) (pInt aq))
+  | ["K", "SquareRoundUp", a] => b (SquareRoundUp_rng (pDec a))
+  | ["K", "SquareTruncate", a] => b (SquareTruncate_rng (pDec a))
+  | ["K", "IsCurrentTickInRange", c, lo, hi] => b (IsCurrentTickInRange_rng (pInt c) (pInt lo) (pInt hi))
+  | ["K", "bfq_OutGivenIn", lim, fee, c, t, l, a] => b (bfq_ComputeSwapWithinBucketOutGivenIn_rng (pDec lim) (pDec fee) (pDec c) (pDec t) (pDec l) (pDec a))
+  | ["K", "bfq_InGivenOut", lim, fee, c, t, l, a] => b (bfq_ComputeSwapWithinBucketInGivenOut_rng (pDec lim) (pDec fee) (pDec c) (pDec t) (pDec l) (pDec a))
+  | ["K", "qfb_OutGivenIn", lim, fee, c, t, l, a] => b (qfb_ComputeSwapWithinBucketOutGivenIn_rng (pDec lim) (pDec fee) (pDec c) (pDec t) (pDec l) (pDec a))
+  | ["K", "qfb_InGivenOut", lim, fee, c, t, l, a] => b (qfb_ComputeSwapWithinBucketInGivenOut_rng (pDec lim) (pDec fee) (pDec c) (pDec t) (pDec l) (pDec a))
+  | ["K", "bfq_GetSqrtTargetPrice", lim, fee, p] => b (bfq_GetSqrtTargetPrice_rng (pDec lim) (pDec fee) (pDec p))
+  | ["K", "qfb_GetSqrtTargetPrice", lim, fee, p] => b (qfb_GetSqrtTargetPrice_rng (pDec lim) (pDec fee) (pDec p))
+  | ["K", "bfq_ValidateSqrtPrice", lim, fee, p, c] => b (bfq_ValidateSqrtPrice_rng (pDec lim) (pDec fee) (pDec p) (pDec c))
+  | ["K", "qfb_ValidateSqrtPrice", lim, fee, p, c] => b (qfb_ValidateSqrtPrice_rng (pDec lim) (pDec fee) (pDec p) (pDec c))
+  | ["K", "bfq_NextTickAfterCrossing", lim, fee, t] => b (bfq_NextTickAfterCrossing_rng (pDec lim) (pDec fee) (pInt t))
+  | ["K", "qfb_NextTickAfterCrossing", lim, fee, t] => b (qfb_NextTickAfterCrossing_rng (pDec lim) (pDec fee) (pInt t))
+  | ["K", "bfq_GetLiquidityDeltaSign", lim, fee, d] => b (bfq_GetLiquidityDeltaSign_rng (pDec lim) (pDec fee) (pDec d))
+  | ["K", "qfb_GetLiquidityDeltaSign", lim, fee, d] => b (qfb_GetLiquidityDeltaSign_rng (pDec lim) (pDec fee) (pDec d))
+  | _ => "-"
 
 end Sunrise.Driver
